@@ -172,6 +172,12 @@ def ladder_text(seg):
     return s
 
 
+def ladder_bound(c):
+    """CPU-time bound of one ladder: the encoding of nested cookies is quadratic in the nesting depth (about 0.5 s for
+    1000 rungs, 8 s for 6000); pages beyond 1000 rungs per text get three times the bound of the small pages."""
+    return TIME_BOUND if max(seg["n"] for seg in c["segs"]) <= 1000 else 3 * TIME_BOUND
+
+
 def ladder_name(c):
     return " / ".join(("page" if i == 0 else "body of " + seg["name"]) + ": " + "+".join(seg["pat"]) + f" x{seg['n']}" for i, seg in enumerate(c["segs"]))
 
@@ -200,7 +206,7 @@ def run_ladders(idxs):
                 stopped = False
                 # the bound is on CPU time (the machine may be loaded): a profiling timer stops a run that exceeds it
                 signal.signal(signal.SIGPROF, ex._alarm)
-                signal.setitimer(signal.ITIMER_PROF, TIME_BOUND + 5)
+                signal.setitimer(signal.ITIMER_PROF, ladder_bound(c) + 5)
                 t0, c0 = time.time(), time.process_time()
                 try:
                     out = ctx.expand(texts[0])
@@ -242,9 +248,9 @@ def judge_ladder(o: Outcome, c, ob):
     if not isinstance(ob["out"], str):
         o.violation(case, "expand() did not return a string", cls="type")
         return
-    if ob["stopped"] or ob["cpu"] > TIME_BOUND:
+    if ob["stopped"] or ob["cpu"] > ladder_bound(c):
         o.violation(case, (f"expand() had not returned after {ob['cpu']:.1f}s of CPU time" if ob["stopped"] else f"expand() needed {ob['cpu']:.1f}s of CPU time")
-                    + f" (bound {TIME_BOUND}s) on the nesting ladder [{name}] ({len(ob['src'])} characters of page text)", cls="time")
+                    + f" (bound {ladder_bound(c)}s) on the nesting ladder [{name}] ({len(ob['src'])} characters of page text)", cls="time")
         return
     real_cut = "<ERR:depth>" in ob["nout"]
     real_msg = any(s == "core/1115" for _, s in ob["msgs"])
